@@ -24,6 +24,11 @@ expect() {
     C12d-*) echo "C12 C06" ;;
     C04d-*) echo "C04 C01" ;;
     C01d-*) echo "C01" ;;
+    C14f-*) echo "C03" ;;
+    C07g-*) echo "C12" ;;
+    C15f-*) echo "" ;; # nothing observable through the public API (DESIGN.md §11)
+    C04f-*) echo "C04 C05" ;;
+    C01g-*) echo "C01 C12" ;;
     C13e-*) echo "" ;; # outside the affordable bounds (DESIGN.md §9)
     C04e-*) echo C17 ;;
     C17e-*) echo "C17 C15" ;;
